@@ -28,10 +28,13 @@ RULE = ("seeded histories of 3-8 fit / transform / fit_transform calls (landscap
         "diagram collections; "
         "landscaper: random subset of {start, stop} user-fixed, hom_deg 0/1, flatten on/off, some fits on malformed "
         "input (missing degree, empty diagram); imager: constructor ranges / pixel sizes incl. inexact quotients, "
-        "skew on/off, single diagram or list, and (class imager-degenerate) later fits on collections with zero extent on an "
+        "skew on/off, single diagram or list, transform with n_jobs in {1, 2} on 3-6 diagrams of pairwise different sizes, "
+        "and (class imager-degenerate) later fits on collections with zero extent on an "
         "axis: all births equal / all persistences equal / a single point / one-point diagrams; a case is non-trivial when it contains >= 2 successful fits "
         "(fit or fit_transform) on different data and, for the landscaper, at least one grid end is not user-fixed; "
-        "distinct = distinct JSON input")
+        "class multi-*: two or three live estimators in one process with interleaved calls (all fitted on fold A, "
+        "then all on fold B; user-fixed ends equal to values another estimator learns), each judged on its own sub-history "
+        "and required to be untouched by calls on the others; distinct = distinct JSON input")
 TRUSTED_BASE = [
     "Coq 8.16.1 kernel, vm_compute (no native_compute)",
     "PrimFloat primitives and their stdlib specification axioms (imager correspondence only; the theorems are closed)",
@@ -158,6 +161,11 @@ def _imager_case(rng):
             dk, d = _idgms_degenerate(rng, ps, skew)
             ops.append({"op": k, "dgms": d, "skew": skew, "single": len(d) == 1 and rng.random() < 0.6, "deg": dk})
             continue
+        if k == "transform" and rng.random() < 0.5:
+            # the joblib branch: 3-6 diagrams of different sizes, n_jobs 1 (mostly) or 2
+            ops.append({"op": k, "dgms": _idgms_sized(rng, ps), "skew": skew, "single": False,
+                        "n_jobs": 2 if rng.random() < 0.08 else 1})
+            continue
         d = _idgms(rng, ps)
         ops.append({"op": k, "dgms": d, "skew": skew, "single": len(d) == 1 and rng.random() < 0.6})
     if degenerate and not any("deg" in o and o["op"] != "transform" for o in ops):
@@ -168,13 +176,73 @@ def _imager_case(rng):
     return {"cls": "imager-degenerate" if degenerate else "imager", "kind": "imager", "ctor": ctor, "ops": ops}
 
 
+def _idgms_sized(rng, ps):
+    """3-6 diagrams of pairwise different sizes, in an order that is not sorted by size."""
+    n = rng.randint(3, 6)
+    sizes = rng.sample(range(1, 8), n)
+    span = ps * rng.uniform(2, MAXPIX - 2)
+    b0 = rng.choice([0.0, -1.0, 0.3])
+    out = []
+    for k in sizes:
+        out.append([[b0 + rng.uniform(0, span), 0.0] for _ in range(k)])
+        for q in out[-1]:
+            q[1] = q[0] + rng.uniform(0.05, span)
+    return out
+
+
+def _multi_case(rng):
+    """Two or three LIVE estimators in one process, calls interleaved (e.g. one landscaper per homological
+    degree, all fitted on fold A, then all on fold B)."""
+    what = rng.choice(["landscaper", "landscaper", "imager"])
+    n_est = rng.randint(2, 3) if what == "landscaper" else 2
+    ops = []
+    if what == "landscaper":
+        folds = [_lX(rng, 1) for _ in range(rng.randint(2, 3))]
+        ests = []
+        for i in range(n_est):
+            e = _landscaper_case(rng)
+            e.pop("ops"); e.pop("cls"); e.pop("kind")
+            if e["start"] is not None and rng.random() < 0.5:
+                # a user-fixed start that equals what another estimator will learn from a fold
+                e["start"] = min(float(b) for b, _ in rng.choice(folds)[e["hom"]])
+            ests.append(e)
+        for X in folds:
+            order = list(range(n_est)); rng.shuffle(order)
+            for i in order:
+                ops.append({"op": rng.choice(["fit", "fit", "fit_transform"]), "X": X, "est": i})
+            for i in order:
+                if rng.random() < 0.6:
+                    ops.append({"op": "transform", "X": rng.choice(folds), "est": i})
+        for _ in range(rng.randint(0, 3)):
+            ops.append({"op": rng.choice(["fit", "transform", "fit_transform"]), "X": _lX(rng, 1), "est": rng.randrange(n_est)})
+    else:
+        ests = []
+        for i in range(n_est):
+            e = _imager_case(rng)
+            ests.append({"ctor": e["ctor"]})
+        ps = max(e["ctor"]["ps"] for e in ests)
+        folds = [_idgms(rng, ps) for _ in range(2)]
+        for d in folds:
+            for i in rng.sample(range(n_est), n_est):
+                ops.append({"op": rng.choice(["fit", "fit_transform"]), "dgms": d, "skew": True, "single": False, "est": i})
+            for i in range(n_est):
+                ops.append({"op": "transform", "dgms": rng.choice(folds), "skew": True, "single": False, "est": i})
+    return {"cls": "multi-" + what, "kind": "multi", "what": what, "ests": ests, "ops": ops}
+
+
+def _one(rng, i):
+    if i % 5 == 4:
+        return _multi_case(rng)
+    return _landscaper_case(rng) if i % 2 == 0 else _imager_case(rng)
+
+
 def generate(rng, tier):
     n = 400 if tier == "quick" else 8000
-    return [(_landscaper_case(rng) if i % 2 == 0 else _imager_case(rng)) for i in range(n)]
+    return [_one(rng, i) for i in range(n)]
 
 
 def search_generate(rng, n):
-    return [(_landscaper_case(rng) if i % 2 == 0 else _imager_case(rng)) for i in range(n)]
+    return [_one(rng, i) for i in range(n)]
 
 
 def corpus():
@@ -208,7 +276,8 @@ def _num(v):
     return None if v is None else float(v)
 
 
-def _run_landscaper(c):
+def _l_runner(c):
+    """One live PersistenceLandscaper: returns (step(op) -> record, state() -> attributes)."""
     import numpy as np
     from persim import PersistenceLandscaper
 
@@ -224,39 +293,45 @@ def _run_landscaper(c):
         return {"start": _num(e.start), "stop": _num(e.stop), "hom": int(e.hom_deg), "num_steps": int(e.num_steps),
                 "flatten": bool(e.flatten), "pstart": _num(gp["start"]), "pstop": _num(gp["stop"])}
 
-    est = mk()
-    calls = []
-    last_fit = None           # data of the most recent fit that did not raise
-    for o in c["ops"]:
+    st = {"est": mk(), "last_fit": None}     # last_fit: data of the most recent fit that did not raise
+
+    def step(o):
+        est = st["est"]
         X = X_of(o)
         rec = {}
         if o["op"] == "clone":
             from sklearn.base import clone
-            est = clone(est)
+            st["est"] = est = clone(est)
             r = {"ret": None}
-            last_fit = None
+            st["last_fit"] = None
         elif o["op"] == "fit":
             r = _try(lambda: est.fit(X) and None)
             if "error" not in r:
-                last_fit = o
+                st["last_fit"] = o
         elif o["op"] == "transform":
             r = _try(lambda: _arr(est.transform(X)))
             rec["again"] = _try(lambda: _arr(est.transform(X)))
+
             def ref():
                 f = mk()
-                if last_fit is not None:
-                    f.fit(X_of(last_fit))
+                if st["last_fit"] is not None:
+                    f.fit(X_of(st["last_fit"]))
                 return _arr(f.transform(X))
             rec["ref"] = _try(ref)
         else:
             r = _try(lambda: _arr(est.fit_transform(X)))
             if "error" not in r:
-                last_fit = o
+                st["last_fit"] = o
             rec["ref"] = _try(lambda: _arr(mk().fit(X).transform(X)))
         rec.update(r)
         rec["attrs"] = attrs(est)
-        calls.append(rec)
-    return {"calls": calls}
+        return rec
+    return step, (lambda: attrs(st["est"]))
+
+
+def _run_landscaper(c):
+    step, _ = _l_runner(c)
+    return {"calls": [step(o) for o in c["ops"]]}
 
 
 def _isnap(p):
@@ -270,14 +345,15 @@ def _isnap(p):
     return s
 
 
-def _run_imager(c):
+def _i_runner(c):
+    """One live PersistenceImager: returns (initial record, step(op) -> record, state() -> snapshot)."""
     import copy
     import numpy as np
     from persim import PersistenceImager
     ct = c["ctor"]
     p = PersistenceImager(birth_range=tuple(ct["br"]), pers_range=tuple(ct["pr"]), pixel_size=ct["ps"])
-    calls = [{"snap": _isnap(p)}]
-    for o in c["ops"]:
+
+    def step(o):
         arrs = [np.array(d, dtype=float).reshape(-1, 2) for d in o["dgms"]]
         before = [a.copy() for a in arrs]
         arg = arrs[0] if o["single"] else arrs
@@ -290,8 +366,9 @@ def _run_imager(c):
             r = _try(lambda: p.fit(arg, skew=skew))
             r.pop("ret", None)
         elif o["op"] == "transform":
-            r = _try(lambda: imgs(p.transform(arg, skew=skew)))
-            rec["again"] = _try(lambda: imgs(p.transform(arg, skew=skew)))
+            nj = o.get("n_jobs")
+            r = _try(lambda: imgs(p.transform(arg, skew=skew, n_jobs=nj)))
+            rec["again"] = _try(lambda: imgs(p.transform(arg, skew=skew)))        # serial branch
             rec["each"] = _try(lambda: [_arr(p.transform(a, skew=skew)) for a in arrs])
         else:
             q = copy.deepcopy(p)
@@ -311,15 +388,49 @@ def _run_imager(c):
         rec.update(r)
         rec["inputs_unchanged"] = all(np.array_equal(a, b) for a, b in zip(arrs, before))
         rec["snap"] = _isnap(p)
-        calls.append(rec)
-    return {"calls": calls}
+        return rec
+    return {"snap": _isnap(p)}, step, (lambda: _isnap(p))
+
+
+def _run_imager(c):
+    first, step, _ = _i_runner(c)
+    return {"calls": [first] + [step(o) for o in c["ops"]]}
+
+
+def _sub_cases(c):
+    """The per-estimator view of a multi case: estimator i with the calls made on it, in order."""
+    kind = c["what"]
+    return [dict(e, kind=kind, ops=[o for o in c["ops"] if o["est"] == i]) for i, e in enumerate(c["ests"])]
+
+
+def _run_multi(c):
+    subs = _sub_cases(c)
+    if c["what"] == "landscaper":
+        runners = [_l_runner(sc) for sc in subs]
+        per = [{"calls": []} for _ in subs]
+    else:
+        trip = [_i_runner(sc) for sc in subs]
+        runners = [(t[1], t[2]) for t in trip]
+        per = [{"calls": [t[0]]} for t in trip]
+    digest = [core.sha(st()) for _, st in runners]
+    cross = []
+    for k, o in enumerate(c["ops"]):
+        i = o["est"]
+        per[i]["calls"].append(runners[i][0](o))
+        for j, (_, st) in enumerate(runners):
+            d = core.sha(st())
+            if j != i and d != digest[j]:
+                cross.append({"call": k, "on": i, "changed": j, "state": st()})
+            digest[j] = d
+    return {"calls": [], "per": per, "cross": cross}
 
 
 def impl_run(cases):
     outs = []
     for c in cases:
         try:
-            outs.append(_run_landscaper(c) if c["kind"] == "landscaper" else _run_imager(c))
+            outs.append(_run_multi(c) if c["kind"] == "multi" else
+                        _run_landscaper(c) if c["kind"] == "landscaper" else _run_imager(c))
         except Exception as e:  # noqa
             outs.append({"error": type(e).__name__, "msg": str(e)[:200]})
     return outs
@@ -412,7 +523,8 @@ def _pred_imager(c, o):
             if not _eq_nan(rec["snap"], prev["snap"]):
                 return False, "pure: %s: transform changed the fitted state" % where
             if not _same(rec, rec["again"]):
-                return False, "repeat: %s: transform twice gives different images" % where
+                return False, ("repeat: %s: transform%s differs from a second (serial) transform"
+                               % (where, "" if op.get("n_jobs") is None else " with n_jobs=%s" % op["n_jobs"]))
             if "error" in rec["each"] or len(rec["ret"]) != n:
                 return False, "elementwise: %s: %d images for %d diagrams" % (where, len(rec.get("ret", [])), n)
             for i in range(n):
@@ -442,12 +554,28 @@ def _brief(s):
 def predicate(c, o):
     if "error" in o and "calls" not in o:
         return False, "harness: runner raised %s %s" % (o["error"], o.get("msg"))
+    if c["kind"] == "multi":
+        for x in o["cross"]:
+            return False, "cross: call %d (%s on estimator %d) changed estimator %d, now %s" % (
+                x["call"], c["ops"][x["call"]]["op"], x["on"], x["changed"],
+                {k: v for k, v in x["state"].items() if k in ("start", "stop", "pstart", "pstop", "br", "pr", "res")})
+        for i, (sc, so) in enumerate(zip(_sub_cases(c), o["per"])):
+            ok, d = (_pred_landscaper if c["what"] == "landscaper" else _pred_imager)(sc, so)
+            if not ok:
+                key, rest = d.split(":", 1)
+                return False, "%s: estimator %d of %d live ones:%s" % (key, i, len(c["ests"]), rest)
+        return True, ""
     return _pred_landscaper(c, o) if c["kind"] == "landscaper" else _pred_imager(c, o)
 
 
 def nontrivial(c, o):
     if "calls" not in o:
         return False
+    if c["kind"] == "multi":
+        subs = _sub_cases(c)
+        fitted = [sc for sc in subs if any(op["op"] != "transform" for op in sc["ops"])]
+        key = "X" if c["what"] == "landscaper" else "dgms"
+        return len(fitted) >= 2 and len({core.sha(op[key]) for op in c["ops"] if op["op"] != "transform"}) >= 2
     if c["kind"] == "landscaper":
         if c["start"] is not None and c["stop"] is not None:
             return False
@@ -511,36 +639,45 @@ def coq_jobs(cases, outs):
     return []
 
 
-def coq_judge(cases, outs, results):
+def _one_verdict(kind, tok):
     from .c12 import FIELDS as IFIELDS
+    try:
+        code = int(tok.replace("%Z", "").strip("() "))
+    except ValueError:
+        return "disagree:model run failed (%s)" % tok[:40]
+    if kind == "imager":
+        return "agree" if code == 0 else "disagree:imager float model differs at call %d field %s" % (
+            code // 100 - 2, IFIELDS.get(code % 100, code % 100))
+    intended, legacy = code % 100000, code // 100000
+    if intended == 0:
+        return "agree"
+    if legacy == 0:
+        return "legacy:C18-landscaper-refit-keeps-grid"
+    return "disagree:landscaper model differs at call %d field %s (legacy model: call %d field %s)" % (
+        intended // 100 - 1, LFIELDS.get(intended % 100), legacy // 100 - 1, LFIELDS.get(legacy % 100))
+
+
+def coq_judge(cases, outs, results):
     verdicts = ["disagree:implementation runner raised"] * len(cases)
-    idx, terms = [], []
+    owner, kinds, terms = [], [], []
     for i, (c, o) in enumerate(zip(cases, outs)):
         if "calls" not in o:
             continue
-        if c["kind"] == "imager" and any("snap" not in r for r in o["calls"]):
+        pairs = list(zip(_sub_cases(c), o["per"])) if c["kind"] == "multi" else [(c, o)]
+        if any(sc["kind"] == "imager" and any("snap" not in r for r in so["calls"]) for sc, so in pairs):
             continue
-        idx.append(i)
-        terms.append(_lterm(c, o) if c["kind"] == "landscaper" else _iterm(c, o))
+        for sc, so in pairs:
+            owner.append(i)
+            kinds.append(sc["kind"])
+            terms.append(_lterm(sc, so) if sc["kind"] == "landscaper" else _iterm(sc, so))
     toks, _ = core.eval_cases(PID, HEADER, terms, chunk=max(1, (len(terms) + core.NPROC - 1) // core.NPROC))
-    for i, t in zip(idx, toks):
-        try:
-            code = int(t.replace("%Z", "").strip("() "))
-        except ValueError:
-            verdicts[i] = "disagree:model run failed (%s)" % t[:40]
-            continue
-        if cases[i]["kind"] == "imager":
-            verdicts[i] = "agree" if code == 0 else "disagree:imager float model differs at call %d field %s" % (
-                code // 100 - 2, IFIELDS.get(code % 100, code % 100))
-            continue
-        intended, legacy = code % 100000, code // 100000
-        if intended == 0:
-            verdicts[i] = "agree"
-        elif legacy == 0:
-            verdicts[i] = "legacy:C18-landscaper-refit-keeps-grid"
-        else:
-            verdicts[i] = "disagree:landscaper model differs at call %d field %s (legacy model: call %d field %s)" % (
-                intended // 100 - 1, LFIELDS.get(intended % 100), legacy // 100 - 1, LFIELDS.get(legacy % 100))
+    per_case = {}
+    for i, k, t in zip(owner, kinds, toks):
+        per_case.setdefault(i, []).append(_one_verdict(k, t))
+    for i, vs in per_case.items():
+        bad = [v for v in vs if v.startswith("disagree")]
+        leg = [v for v in vs if v.startswith("legacy")]
+        verdicts[i] = bad[0] if bad else leg[0] if leg else "agree"
     return verdicts
 
 
@@ -554,7 +691,7 @@ def shrink_candidates(c):
     for k in range(n - 1, -1, -1):
         d = dict(c); d["ops"] = c["ops"][:k] + c["ops"][k + 1:]
         yield d
-    key = "X" if c["kind"] == "landscaper" else "dgms"
+    key = "X" if c.get("what", c["kind"]) == "landscaper" else "dgms"
     for k, o in enumerate(c["ops"]):
         for i, dg in enumerate(o[key]):
             if len(dg) > 1:
